@@ -13,7 +13,8 @@
 From Coq Require Import ZArith QArith List Bool String.
 From KV Require Import Base.Sx Base.Str Base.SelSlice Base.PySlice Base.AxisIndex Base.NdArray Gen.Generated
   Model.Flags Model.DataSet Proofs.DataSetBaseP Proofs.DataSetP Proofs.DataSetTopP Proofs.DataSetExP
-  Proofs.DataSetSensP Model.DataSetPre Proofs.DataSetPreP.
+  Proofs.DataSetSensP Model.DataSetPre Proofs.DataSetPreP
+  Model.DataSetFreq Proofs.DataSetFreqP.
 From KV Require Model.Select Proofs.SelectP Model.TimeFreq Proofs.TimeFreqP.
 Import ListNotations.
 Open Scope Z_scope.
@@ -529,3 +530,81 @@ Theorem C01_preselect_example :
        = Some ([1; 2; 1], [pos3 9 4 4 3 1; pos3 9 4 4 5 1]).
 Proof. exact example_pre. Qed.
 Print Assumptions C01_preselect_example.
+
+(* ------------------------------------------------------------------ the frequency axis of the HDF5 readers (v1, v2, v3) *)
+
+(* Reading guide.  [a : fattrs] is what the FILE (and the open() call) says about the frequency axis; [window_of f a]
+   is the SpectralWindow the reader of format f builds from it (attribute names, channel-width expression, sideband
+   default, v3 receiver table, "fake UHF" rule, bandwidth workaround and the order of the centre-frequency overrides
+   re-translated from the source); [spec_freq f a k] the documented frequency of stored channel k. *)
+
+(* tie: which stored attribute feeds which SpectralWindow parameter, and the constants, as found in the source *)
+Theorem C01_freq_axis_source :
+  (gen_spw_default_sideband = -1 /\ gen_v1_sideband = None /\ gen_v2_sideband = None
+   /\ gen_v1_freq_attrs = [("centre_freq", "center_frequency_hz"); ("channel_width", "channel_bandwidth_hz");
+                           ("num_chans", "num_freq_channels")]%string
+   /\ gen_v2_freq_attrs = [("num_chans", "n_chans"); ("bandwidth", "bandwidth")]%string
+   /\ gen_v2_centre_sensors = ("2.1", ("RFE/center-frequency-hz", "RFE/rfe7.lo1.frequency"))%string)
+  /\ (gen_v3_spw_prog = [1; 2; 3; 4; 5; 6; 7; 8; 9; 10]
+      /\ gen_v3_rx_table = [("l", ("L", (Some 1284000000, 1))); ("u", ("UHF", (Some 816000000, 1)));
+                            ("x", ("Ku", (None, 1)))]%string
+      /\ gen_v3_rx_default = (""%string, (None, 1)) /\ gen_v3_bw_workaround = (857152196, 856000000)
+      /\ gen_v3_fake_uhf = ("UHF"%string, (856000000, (428000000, -1))) /\ gen_v3_ku_band = "Ku"%string
+      /\ gen_v3_default_centre = 0).
+Proof. exact (conj kat7_axis_source v3_source). Qed.
+Print Assumptions C01_freq_axis_source.
+
+(* every reader builds a window (never refuses), with the channel count of the file, the lower sideband exactly when
+   the documented axis is flipped, and channel k at its DOCUMENTED frequency: v1 centre - (k - n // 2) * width,
+   v2 (sensor [- 4200 MHz]) - (k - n // 2) * bandwidth / n, v3 receiver table / fake UHF / L0 attribute / argument *)
+Theorem C01_freq_axis_documented : forall f a, f <> V4 -> 0 < fa_n a ->
+  exists w, window_of f a = Some w /\ TimeFreq.s_n w = fa_n a
+    /\ TimeFreq.s_side w = (if spec_lower f a then -1 else 1)
+    /\ forall k, (TimeFreq.chan_freq w k == spec_freq f a k)%Q.
+Proof. exact axis_documented. Qed.
+Print Assumptions C01_freq_axis_documented.
+
+(* "freqs are the labels of those same channels", v1 / v2 / v3: after every history d.freqs has one entry per channel
+   and freqs[j] is the documented frequency of STORED channel channels[j] (the channel C01_elements delivers at j) *)
+Theorem C01_freqs_documented : forall f a w c h d, f <> V4 -> 0 < fa_n a -> window_of f a = Some w -> cfg_ok c ->
+  nF c = fa_n a -> run c (start c) h = Some d ->
+  let s := ds_sel d in
+  zlen (axis_freqs w s) = zlen (channels s)
+  /\ forall j, 0 <= j < zlen (channels s) ->
+       (nth (Z.to_nat j) (axis_freqs w s) 0 == spec_freq f a (znth (channels s) j))%Q.
+Proof. exact freqs_history. Qed.
+Print Assumptions C01_freqs_documented.
+
+(* the visibilities are conjugated exactly when the window has the lower sideband = exactly when the documented axis
+   is flipped (two separately translated facts meet: .conjugate() per vis property, sideband per SpectralWindow call);
+   v4: upper sideband, never conjugated *)
+Theorem C01_conjugation_iff_flipped_spectrum :
+  (forall f a w c s, c_fmt c = f -> f <> V4 -> 0 < fa_n a -> window_of f a = Some w ->
+     c_upper c = (TimeFreq.s_side w =? 1) ->
+     conv_of c s KVis = CVis (TimeFreq.s_side w =? -1) /\ (TimeFreq.s_side w =? -1) = spec_lower f a)
+  /\ (forall c s centre bw n, c_fmt c = V4 -> 0 < n ->
+        conv_of c s KVis = CVis false /\ TimeFreq.s_side (TimeFreq.v4_spw centre bw n) = 1).
+Proof. exact (conj conj_iff_lower conj_v4). Qed.
+Print Assumptions C01_conjugation_iff_flipped_spectrum.
+
+(* non-vacuity: KAT-7 axes run downwards, the LO correction of old v2 files, MeerKAT L band, "fake UHF" (with the CBF
+   bandwidth bug), L0 attribute overridden by the argument, unknown band -> 0 Hz *)
+Theorem C01_freq_axis_examples :
+  map (fun k => Qred (spec_freq V1 (ex_fa 1822 1 4 false "" None None) k)) [0; 1; 2; 3] = [1824; 1823; 1822; 1821]%Q
+  /\ option_map (fun w => map Qred (TimeFreq.freqs_full w)) (window_of V1 (ex_fa 1822 1 4 false "" None None))
+     = Some [1824; 1823; 1822; 1821]%Q
+  /\ option_map (fun w => map Qred (TimeFreq.freqs_full w)) (window_of V2 (ex_fa 6022000000 4 4 true "" None None))
+     = Some [1822000002; 1822000001; 1822000000; 1821999999]%Q
+  /\ option_map (fun w => map Qred (TimeFreq.freqs_full w)) (window_of V3 (ex_fa 0 10 5 false "l" None None))
+     = Some [1283999996; 1283999998; 1284000000; 1284000002; 1284000004]%Q
+  /\ option_map (fun w => (TimeFreq.s_side w, map Qred (TimeFreq.freqs_full w)))
+       (window_of V3 (ex_fa 0 857152196 2 false "u" None None))
+     = Some (-1, [856000000; 428000000]%Q)
+  /\ spec_lower V3 (ex_fa 0 857152196 2 false "u" None None) = true
+  /\ option_map (fun w => (TimeFreq.s_side w, map Qred (TimeFreq.freqs_full w)))
+       (window_of V3 (ex_fa 0 544000000 2 false "u" (Some 900000000%Q) (Some 1000000000%Q)))
+     = Some (1, [728000000; 1000000000]%Q)
+  /\ option_map (fun w => map Qred (TimeFreq.freqs_full w)) (window_of V3 (ex_fa 0 4 2 false "s" None None))
+     = Some [-(2); 0]%Q.
+Proof. exact example_axes. Qed.
+Print Assumptions C01_freq_axis_examples.
